@@ -116,6 +116,8 @@ pub fn gen_value(rng: &mut Rng, k: &Knobs, class: &str) -> SV {
   match class {
     "scalar" => gen_scalar(rng, &kind),
     "matrix" => gen_matrix(rng, &kind, k.max_dim),
+    // a record with the schema of the generated tables (a row that can be appended to one)
+    "record" if rng.chance(1, 4) => SV::Record(vec![("a".to_string(), "f64".to_string(), gen_scalar(rng, "f64")), ("b".to_string(), "f64".to_string(), gen_scalar(rng, "f64"))]),
     "record" => {
       let n = 2 + rng.usize(2);
       let fnames = ["a", "b", "c"];
@@ -585,6 +587,21 @@ fn gen_idx_assign(rng: &mut Rng, k: &Knobs, m: &Model, fault: bool) -> Option<Op
 
 fn gen_op_assign(rng: &mut Rng, k: &Knobs, m: &Model, fault: bool, indexed: bool) -> Option<Op> {
   let arith = |b: &Binding| match &b.v { SV::Mat(ek, ..) => NK::from_name(ek).is_some(), s => s.is_scalar() && NK::from_name(&s.kind_tag()).is_some() };
+  // `tb += r`: a record (held in a variable, or a literal) appended to a table as a new row; as a
+  // fault a record of another schema
+  if !indexed && rng.chance(1, 5) {
+    let tables = names_where(m, |b| matches!(b.v, SV::Table(..)) && (b.mutable || fault));
+    if !tables.is_empty() {
+      let name = (*rng.pick(&tables)).clone();
+      let cols = match m.store.get(&name).map(|b| b.v.clone()) { Some(SV::Table(_, c)) => c, _ => vec![] };
+      let fits = |f: &Vec<(String, String, SV)>| f.len() == cols.len() && cols.iter().all(|(cn, ck, _)| f.iter().any(|(n, kd, v)| n == cn && kd == ck && v.is_scalar()));
+      let holders = names_where(m, |b| matches!(&b.v, SV::Record(f) if fits(f)));
+      let e = if fault && rng.chance(1, 2) { Expr::Lit(SV::Record(vec![("a".to_string(), "f64".to_string(), gen_scalar(rng, "f64")), ("zz".to_string(), "f64".to_string(), gen_scalar(rng, "f64"))])) }
+        else if !holders.is_empty() && rng.chance(3, 4) { Expr::Var((*rng.pick(&holders)).clone()) }
+        else { Expr::Lit(SV::Record(cols.iter().map(|(cn, ck, _)| (cn.clone(), ck.clone(), gen_scalar(rng, ck))).collect())) };
+      return Some(Op::OpAssign { name, sub: None, op: Bop::Add, e });
+    }
+  }
   let (name, ft) = if indexed { pick_target(rng, k, m, fault, |b| b.v.is_matrix() && arith(b))? } else { pick_target(rng, k, m, fault, arith)? };
   let bop = *rng.pick(&[Bop::Add, Bop::Sub, Bop::Mul, Bop::Div]);
   let cur = m.store.get(&name).map(|b| b.v.clone());
